@@ -203,7 +203,7 @@ def shaped_case(rng):
     d1 = table(rng, "d1", [("k", "int", [1, 2, 3]), ("a", "float", None), ("b", "int", None), ("s", "str", None)], null_rate=nr,
                nrows=0 if rng.random() < 0.1 else None)
     d2 = table(rng, "d2", [("k", "int", [1, 2, 3, 4]), ("a", "float", None), ("z", "float", None)], null_rate=nr)
-    kind = rng.choice(["join", "join", "join2", "joinnames", "joinnames", "nokeys", "join_fill", "join_fill", "ordered_fl", "ordered_fl", "concat", "project_empty", "project", "window", "shift", "logic", "cmp", "filter",
+    kind = rng.choice(["join", "join", "join2", "joinnames", "joinnames", "nokeys", "nokeys", "join_fill", "join_fill", "ordered_fl", "ordered_fl", "concat", "project_empty", "project", "window", "shift", "logic", "cmp", "filter",
                        "minmax", "ifelse", "nulltests", "strings", "arith", "order", "reserved", "count"])
     num = lambda: rng.choice(["a", "b", "a", "k"])
     cmpop = lambda: rng.choice(["<", "<=", ">", ">=", "==", "!="])
@@ -225,9 +225,13 @@ def shaped_case(rng):
              "jointype": rng.choice(["INNER", "LEFT", "RIGHT", "FULL"])}
     elif kind == "nokeys":
         # joins without keys (CROSS, and the other types with on=[]): the constant scratch key column
-        b = {"op": "select_columns", "src": T2, "columns": rng.choice([["z"], ["a", "z"], ["k", "z"]])}
-        s = {"op": "natural_join", "src": {"op": "select_columns", "src": T1, "columns": ["k", "a", "uid"]}, "b": b, "on": [],
-             "jointype": rng.choice(["CROSS", "CROSS", "INNER", "LEFT", "RIGHT", "FULL"])}
+        # half of the time exactly one side keeps no row (k <= 4 everywhere): LEFT / RIGHT / FULL must keep the other side's rows
+        empty_side = rng.choice([None, None, "a", "b"])
+        src_a = {"op": "select_rows", "src": T1, "expr": "k > 100"} if empty_side == "a" else T1
+        src_b = {"op": "select_rows", "src": T2, "expr": "k > 100"} if empty_side == "b" else T2
+        b = {"op": "select_columns", "src": src_b, "columns": rng.choice([["z"], ["a", "z"], ["k", "z"]])}
+        s = {"op": "natural_join", "src": {"op": "select_columns", "src": src_a, "columns": ["k", "a", "uid"]}, "b": b, "on": [],
+             "jointype": rng.choice(["CROSS", "INNER", "LEFT", "RIGHT", "FULL", "LEFT", "RIGHT", "FULL"])}
     elif kind == "join_fill":
         # every join type with a shared NON-KEY column that is null on matched left rows and non-null on the right (and the
         # other way round), non-null keys: the left-first fill-in of natural_join must happen for matched rows too
@@ -342,6 +346,28 @@ def shaped_case(rng):
     return c
 
 
+def corner_cases(rng):
+    """run on every run: the joins without keys, every join type, with the left / the right / both operands keeping no row at run
+    time (the preserved side of LEFT / RIGHT / FULL must survive), and with both non-empty"""
+    out = []
+    d1 = table(rng, "d1", [("k", "int", [1, 2, 3]), ("a", "float", None), ("b", "int", None), ("s", "str", None)], null_rate=0.2, nrows=3)
+    d2 = table(rng, "d2", [("k", "int", [1, 2, 3, 4]), ("a", "float", None), ("z", "float", None)], null_rate=0.2, nrows=2)
+    tabs = [d1, d2]
+    for jt in ("INNER", "LEFT", "RIGHT", "FULL", "CROSS"):
+        for empty in ("", "a", "b", "ab"):
+            a = {"op": "select_rows", "src": T1, "expr": "k > 100"} if "a" in empty else T1
+            b = {"op": "select_rows", "src": T2, "expr": "k > 100"} if "b" in empty else T2
+            s = {"op": "natural_join", "src": {"op": "select_columns", "src": a, "columns": ["k", "a", "uid"]},
+                 "b": {"op": "select_columns", "src": b, "columns": ["a", "z"]}, "on": [], "jointype": jt}
+            try:
+                c = X.Case(s, tabs, pipes.build(s, {t["name"]: t for t in tabs}))
+            except Exception:
+                continue
+            c.kind = f"corner:nokeys:{jt}:empty={empty or 'none'}"
+            out.append(c)
+    return out
+
+
 def random_case(rng, deep=False):
     c = X.gen_case(rng, depth=(1, 5 if deep else 4), ntables=2, null_rate=rng.choice([0.0, 0.15, 0.3]))
     if c is not None:
@@ -412,6 +438,7 @@ def run(chk):
             cases.append(c)
         except Exception:
             chk.dist("corpus_unreadable")
+    cases += corner_cases(rng)
     n, tries = N[chk.tier] + len(cases), 0
     while len(cases) < n and tries < n * 20:
         tries += 1
